@@ -91,8 +91,10 @@ func (*Stream).groupFieldOutputName
 
 func (*Stream).injectGroupKeyExprs
   props C04 C20
-  modifies allmaps
+  modifies mapof(data)
+  ensures no-function-key-nothing-written: forall(i, 0, len(s.config.GroupFields), !strings.Contains(s.config.GroupFields[i], "(")) ==> mapUnchanged(data)
   atreturn every-function-key-is-attempted: $done1
+  loop 1 invariant forall(i, 0, len(s.config.GroupFields), !strings.Contains(s.config.GroupFields[i], "(")) ==> mapUnchanged(data)
 
 // ---------------------------------------------------------------- C16: stream-table JOIN
 guarded_by MemoryTableSource.mu: index
@@ -153,6 +155,7 @@ func (*Stream).enrichJoin
   ensures join-works-on-a-copy: len(s.config.JoinConfigs) > 0 && working != nil ==> fresh(working)
   ensures dropped-rows-return-nothing: !keep ==> working == nil
   ensures kept-rows-have-no-error: keep ==> err == nil
+  ensures kept-joined-rows-exist: keep && len(s.config.JoinConfigs) > 0 ==> working != nil
   observe registered := get
   before streamFieldValue on-key-is-read-from-the-callers-row: $arg0 == data
   loop 1 invariant fresh(working) && working != nil
@@ -221,4 +224,69 @@ func (*StreamFactory).createStreamInstance
   props C19
   modifies *
   ensures fresh(result)
+
+// ---------------------------------------------------------------- C20: the caller's row is never written
+pred mapUnchanged(m) := forallv(k, "", (dom(m, k) <==> old(dom(m, k))) && m[k] == old(m[k]))
+pred hasFuncGroupKey(s) := exists(i, 0, len(s.config.GroupFields), strings.Contains(s.config.GroupFields[i], "("))
+pred injects(s) := len(s.config.AnalyticFields) > 0 || len(s.config.WhereAnalyticCalls) > 0 || hasFuncGroupKey(s)
+
+func (*Stream).hasJoin
+  props C20
+  ensures result == (len(s.config.JoinConfigs) > 0)
+
+func (*Stream).injectsIntoRow
+  props C20
+  ensures result <==> injects(s)
+  loop 1 invariant forall(j, 0, $i, !strings.Contains(s.config.GroupFields[j], "("))
+
+func (*Stream).enrichData
+  props C20 C05
+  ensures row-is-private-whenever-something-will-be-written-into-it: err == nil && keep && injects(s) ==> fresh(dataMap)
+  ensures joined-row-is-a-copy: err == nil && keep && len(s.config.JoinConfigs) > 0 ==> fresh(dataMap)
+  ensures errors-drop-the-row: err != nil ==> !keep
+  ensures no-join-no-injection-passes-the-row-through: len(s.config.JoinConfigs) == 0 && !injects(s) ==> dataMap == data && keep && err == nil
+  ensures callers-row-untouched: mapUnchanged(data)
+  loop 1 invariant fresh(dataMap) && mapUnchanged(data)
+
+extern (*Stream).ensureAnalytic
+  props C20 C14
+  modifies s.analytic
+
+extern (*AnalyticEngine).HasFields
+  props C20 C14
+  option pure
+
+extern (*AnalyticEngine).Evaluate
+  props C20 C14
+
+func (*Stream).evalAnalytic
+  props C20 C14
+  modifies mapof(dataMap), s.analytic
+  ensures nothing-to-inject-nothing-written: len(s.config.AnalyticFields) == 0 && len(s.config.WhereAnalyticCalls) == 0 ==> mapUnchanged(dataMap)
+  loop 1 invariant len(s.config.AnalyticFields) == 0 && len(s.config.WhereAnalyticCalls) == 0 ==> mapUnchanged(dataMap)
+  loop 2 invariant len(s.config.AnalyticFields) == 0 && len(s.config.WhereAnalyticCalls) == 0 ==> mapUnchanged(dataMap)
+  loop 3 invariant len(s.config.AnalyticFields) == 0 && len(s.config.WhereAnalyticCalls) == 0 ==> mapUnchanged(dataMap)
+
+func (*Stream).applyWhereAndAnalytic
+  props C20 C05 C14
+  modifies mapof(dataMap), s.analytic
+  ensures nothing-to-inject-nothing-written: len(s.config.AnalyticFields) == 0 && len(s.config.WhereAnalyticCalls) == 0 ==> mapUnchanged(dataMap)
+  ensures where-false-yields-nothing: !keep ==> analyticResults == nil
+
+extern (*Stream).projectDirectRow
+  props C20 C05
+  ensures emit ==> result != nil && fresh(result)
+
+func (*Stream).processDirectDataSync
+  props C20 C05
+  modifies *
+  before callSinksAsync callers-row-untouched: mapUnchanged(data)
+  before callSinksAsync sinks-get-a-fresh-row: fresh(result)
+  ensures filtered-or-suppressed-rows-yield-nothing: true
+
+func (*DataProcessor).processItem
+  props C20
+  modifies *
+  before Add callers-row-untouched: mapUnchanged(data)
+  before injectGroupKeyExprs computed-keys-go-into-a-private-row: hasFuncGroupKey(dp.stream) ==> fresh($arg1)
 @*/
